@@ -275,6 +275,20 @@ func (c *checker) compare(seam string, cs *caseSpec, stream []byte, ref *reffram
 	}
 }
 
+func tricklesToo(cs *caseSpec) bool {
+	switch cs.Kind {
+	case "frame":
+		if cs.Frame.Claim == "none" {
+			return true
+		}
+		_, actual := dataBytes(cs.Frame.Data)
+		return cs.Frame.Claim == fmt.Sprintf("v:%d", actual)
+	case "tokens":
+		return len(cs.Tokens) <= 2
+	}
+	return true
+}
+
 func (c *checker) evalCase(cs *caseSpec) {
 	r := c.r
 	c.cur.Store(cs)
@@ -311,13 +325,18 @@ func (c *checker) evalCase(cs *caseSpec) {
 		}
 	}
 
-	// the same stream arriving in short reads (alternating between the two ways a reader gets installed)
-	hv := fnv.New32a()
-	hv.Write([]byte(cfgString(cfg) + cs.String()))
-	variant := 1 + int(hv.Sum32()>>7&1) // a function of the case alone, so that a replay takes the same one
-	c.r.Class("reader:" + readerVariants[variant])
-	t := runFrameLayerOn(stream, cfg, measureNone, variant)
-	c.compare("readPayload/"+readerVariants[variant], cs, stream, &ref, &t, len(ref.Payloads))
+	// the same stream arriving in short reads. How a decoder copes with short reads depends on where the
+	// length prefixes and frame bodies end, not on what a body claims or contains: the claimed-size alphabet
+	// is therefore reduced to its first member (the actual size) on this seam; every length token, body
+	// token, prelude, prefix cut, empty run and token string of <= 2 tokens is kept.
+	if tricklesToo(cs) {
+		hv := fnv.New32a()
+		hv.Write([]byte(cfgString(cfg) + cs.String()))
+		variant := 1 + int(hv.Sum32()>>7&1) // a function of the case alone, so that a replay takes the same one
+		c.r.Class("reader:" + readerVariants[variant])
+		t := runFrameLayerOn(stream, cfg, measureNone, variant)
+		c.compare("readPayload/"+readerVariants[variant], cs, stream, &ref, &t, len(ref.Payloads))
+	}
 
 	// public seam: compare up to the first payload that has no parseable packet id (packet layer, not frame layer)
 	upTo := len(ref.Payloads)
